@@ -295,6 +295,11 @@ pub fn check_c01(run: &Run) -> Value {
             out.executions += 1;
             let (o, vs) = judge_binary(desc, c);
             out.outcome(if o.starts_with("encode-err") { "encode-err (outside domain)" } else { &o });
+            // which part of the enumeration actually went through the codec (a type whose cases
+            // are all refused by the writer would otherwise look covered)
+            if c == Compression::None {
+                out.outcome(&format!("{}:{}", if o == "ok" { "covered" } else { "not-written" }, class_of(desc)));
+            }
             for (key, what) in vs {
                 out.violation(key, what, || serde_json::to_value(BinReplay { desc: desc.clone(), compression: c }).unwrap());
             }
